@@ -1,29 +1,41 @@
 """C04 - operations addressed to one bucket never change any other bucket."""
 S = "aw_datastore.storages.sqlite.SqliteStorage."
+D = "aw_datastore.datastore."
 PROP = dict(
     id="C04",
     level="other",
-    contract_modules=["contracts.models", "contracts.sqlite"],
-    spec_modules=["contracts.sqlite"],
+    contract_modules=["contracts.models", "contracts.sqlite", "contracts.datastore"],
+    spec_modules=["contracts.sqlite", "contracts.datastore"],
     functions=[dict(fn=S + "delete", rt_skip=True),
                dict(fn=S + "replace", rt_skip=True),
                dict(fn=S + "replace_last", rt_skip=True),
                dict(fn=S + "insert_one", rt_skip=True),
                dict(fn=S + "insert_many", rt_skip=True),
                dict(fn=S + "create_bucket", rt_skip=True),
-               dict(fn=S + "delete_bucket", rt_skip=True)],
+               dict(fn=S + "delete_bucket", rt_skip=True),
+               dict(fn=D + "Bucket.delete", rt_skip=True),
+               dict(fn=D + "Bucket.replace", rt_skip=True),
+               dict(fn=D + "Bucket.replace_last", rt_skip=True),
+               dict(fn=D + "Bucket.insert", contract_key=D + "Bucket.insert:one", rt_skip=True),
+               dict(fn=D + "Bucket.insert", contract_key=D + "Bucket.insert:many", rt_skip=True),
+               dict(fn=D + "Datastore.create_bucket", rt_skip=True),
+               dict(fn=D + "Datastore.delete_bucket", rt_skip=True),
+               dict(fn=D + "Datastore.__getitem__", rt_skip=True),
+               dict(fn=S + "buckets", rt_skip=True)],
     timeout_s=20,
     extra=[lambda run: run.storage_histories("C04")],
     technique="run-time refinement check of the real back ends against a reference list over random histories (bounded); "
               "with the sqlite methods proved against contracts over the table state (SQL text parsed from the source)",
-    explanation="deductive (sqlite): the postcondition of every write method quantifies over *all* event rows and *all* bucket rows: rows outside the addressed bucket (or, for bucket operations, other bucket rows and their events) are equal to their old value, for arbitrary ids and instants; the frame obligations additionally prove nothing outside the connection's tables and the storage's counters is written. " 
+    explanation="deductive (sqlite): the postcondition of every write method quantifies over *all* event rows and *all* bucket rows: rows outside the addressed bucket (or, for bucket operations, other bucket rows and their events) are equal to their old value, for arbitrary ids and instants; the frame obligations additionally prove nothing outside the connection's tables and the storage's counters is written. The same frame statements are proved one level up for Bucket.* and Datastore.create_bucket / delete_bucket. " 
                 "bounded: random multi-bucket histories including operations that pass ids of *another* bucket's events (replace, "
                 "insert with id, delete) and update/delete of buckets; after every operation every other bucket must read back exactly "
                 "as before (the addressed bucket is re-synchronised after such an operation: it may be affected or the call rejected).",
 )
 
 F = "/repo/aw_datastore/storages/sqlite.py"
+FD = "/repo/aw_datastore/datastore.py"
 MUTANTS = [
+    (FD, '        return self.ds.storage_strategy.delete(self.bucket_id, event_id)', '        return self.ds.storage_strategy.delete(self.ds.storage_strategy.buckets().__iter__().__next__(), event_id)', True),   # deletes from another bucket
     (F, '                     WHERE id = ? AND bucketrow = (SELECT rowid FROM buckets WHERE id = ?)"""\n        self.conn.execute(\n            query, [bucket_id, starttime, endtime, datastr, event_id, bucket_id]', '                     WHERE id = ?"""\n        self.conn.execute(\n            query, [bucket_id, starttime, endtime, datastr, event_id]', True),   # replace steals events of other buckets
     (F, '"DELETE FROM events WHERE bucketrow IN (SELECT rowid FROM buckets WHERE id = ?)",\n            [bucket_id],', '"DELETE FROM events WHERE bucketrow IN (SELECT rowid FROM buckets WHERE id >= ?)",\n            [bucket_id],', True),   # delete_bucket removes events of later buckets
     (F, '                        SELECT id FROM events WHERE bucketrow =\n                            (SELECT rowid FROM buckets WHERE id = ?)\n                        ORDER BY', '                        SELECT id FROM events WHERE endtime >= 0\n                        ORDER BY', True),   # replace_last global
